@@ -375,6 +375,10 @@ func init() {
 		}
 		return asInt64(d)
 	}
+	harnessAPI["vBlockAlts"] = func(fr *frame, args []value) value {
+		i := int(fr.i.concInt(fr, args[0]))
+		return fr.i.lastBlock[i].alts
+	}
 	harnessAPI["vBlockKind"] = func(fr *frame, args []value) value {
 		i := int(fr.i.concInt(fr, args[0]))
 		return fr.i.lastBlock[i].kind
@@ -392,6 +396,10 @@ func init() {
 	}
 	harnessAPI["vFrozenWrites"] = func(fr *frame, args []value) value {
 		return len(fr.i.freezeHits)
+	}
+	harnessAPI["vDepthBound"] = func(fr *frame, args []value) value {
+		fr.i.path.depthBound = int(fr.i.concInt(fr, args[0]))
+		return nil
 	}
 	harnessAPI["vGoDepth"] = func(fr *frame, args []value) value {
 		return fr.i.maxDepth
@@ -964,6 +972,7 @@ func opaqueInt(fr *frame, v value) (value, bool) {
 type blockEvent struct {
 	kind string
 	dur  value
+	alts int // select only: number of OTHER (non-nil, still open) channels the wait also listens on
 }
 
 // concStr returns a concrete Go string (forking over symbolic bytes).
@@ -1292,7 +1301,13 @@ func (in *Interp) selectStub(fr *frame, instr *ssa.Select) value {
 		c, _ := fr.get(st.Chan).(*gchan)
 		if i == chosen && c != nil && c.kind == "timer" {
 			in.path.events = append(in.path.events, "select-timer:"+in.display(c.dur))
-			in.lastBlock = append(in.lastBlock, blockEvent{kind: "select-timer", dur: c.dur})
+			alts := 0
+			for j, st2 := range instr.States {
+				if c2, _ := fr.get(st2.Chan).(*gchan); j != i && c2 != nil && !c2.closed {
+					alts++
+				}
+			}
+			in.lastBlock = append(in.lastBlock, blockEvent{kind: "select-timer", dur: c.dur, alts: alts})
 			r[1] = true
 		} else if i == chosen {
 			in.path.events = append(in.path.events, "select-closed")
